@@ -51,7 +51,33 @@ let check_C10_tls (fields : sexp list) : verdict * string option =
   let too_long q = List.length q + 1 > int_of_z lim in
   if List.exists (fun (_, _, e) -> match e with CbParse q -> too_long q | _ -> false) o.events then
     (OracleFail (Printf.sprintf "a message above the configured limit of %s bytes was buffered and handed to the parse callback (session behind an SSLRequest)" (string_of_z lim)), None)
-  else P_c11.check fields
+  else begin
+    (* conversely: with the session alive to its Terminate, exactly the Query / Parse texts of the messages
+       within the limit reach the parser, in order (a message within the limit is never refused) *)
+    let tlo = field "tlsobs" fields in
+    let hs_ok = atom (field1 "handshake" tlo) = "ok" || not c0.sc_tls in
+    let tlsin = (match c0.sc_tlsin with Some b -> b | None -> []) in
+    let after_su = (match untyped c0.sc_limit tlsin with Some (_, rest) -> Some rest | None -> None) in
+    match after_su with
+    | Some rest when hs_ok && not o.hang ->
+        let (fs, _) = frames c0.sc_limit rest in
+        let fs = (match c0.sc_auth, fs with Some _, _ :: r -> r | _, l -> l) in
+        let tb t = int_of_byte t in
+        let expected = List.filter_map (function
+          | FMsg (t, body) when tb t = 81 -> (match take_cstr body with Some (q, _) -> Some q | None -> None)
+          | FMsg (t, body) when tb t = 80 ->
+              (match take_cstr body with Some (_, l1) -> (match take_cstr l1 with Some (q, _) -> Some q | None -> None) | None -> None)
+          | _ -> None) fs in
+        let well_formed = List.for_all (function FMsg _ | FOver (_, _, None) -> true | _ -> false) fs in
+        let ended_by_terminate = (match List.rev fs with FMsg (t, _) :: _ -> tb t = 88 | _ -> false) in
+        let observed = List.filter_map (fun (_, _, e) -> match e with CbParse q -> Some q | _ -> None) o.events in
+        let short b = let a = atom_of_bytes b in if String.length a > 40 then String.sub a 0 40 ^ "..(" ^ string_of_int (List.length b) ^ " bytes)" else a in
+        if well_formed && ended_by_terminate && expected <> observed then
+          (OracleFail (Printf.sprintf "behind the SSLRequest the parser saw [%s] while the messages within the limit of %s bytes carry [%s]"
+                         (String.concat "; " (List.map short observed)) (string_of_z lim) (String.concat "; " (List.map short expected))), None)
+        else P_c11.check fields
+    | _ -> P_c11.check fields
+  end
 let check_C10 fields =
   if field_opt "tlsobs" fields <> None then check_C10_tls fields else
   (* lock-step cases: the per-message discipline; all cases: a startup packet within the limit is served *)
